@@ -413,7 +413,7 @@ def spec() -> Spec:
         generate=generate,
         extract=extract,
         nontrivial=nontrivial,
-        budget={"quick": 240, "thorough": 4000},
+        budget={"quick": 150, "thorough": 3000},
         search_budget={"quick": 600, "thorough": 8000},
         per_case_timeout=60.0,
         rule="daemon with a configured token (6 token values incl. colons, spaces, non-ASCII); 1-2 authenticated STOREs, then 6-40 "
